@@ -44,14 +44,23 @@ def verus_cmd(path, rlimit=None, seed=None):
     return cmd
 
 
-def run_verus(path, rlimit=None, seed=None, timeout=900):
+def run_verus(path, rlimit=None, seed=None, timeout=None):
+    import signal
+    timeout = timeout or int(os.environ.get('VERIF_VERUS_TIMEOUT', '300'))
     t0 = time.time()
     cmd = verus_cmd(path, rlimit, seed)
+    # own process group, so that a timeout also kills the z3 child
+    p = subprocess.Popen(cmd, stdout=subprocess.PIPE, stderr=subprocess.PIPE, text=True, cwd=os.path.dirname(path), start_new_session=True)
     try:
-        p = subprocess.run(cmd, capture_output=True, text=True, timeout=timeout, cwd=os.path.dirname(path))
-        out, err, rc = p.stdout, p.stderr, p.returncode
-    except subprocess.TimeoutExpired as e:
-        out, err, rc = (e.stdout or b'').decode() if isinstance(e.stdout, bytes) else (e.stdout or ''), 'TIMEOUT', 124
+        out, err = p.communicate(timeout=timeout)
+        rc = p.returncode
+    except subprocess.TimeoutExpired:
+        try:
+            os.killpg(p.pid, signal.SIGKILL)
+        except Exception:
+            pass
+        out, err = p.communicate()
+        out, err, rc = out or '', 'TIMEOUT after %ds (solver did not return)' % timeout, 124
     wall = time.time() - t0
     diags = []
     for ln in err.split('\n'):
